@@ -240,7 +240,7 @@ theorem request_uri_override (C : BlockCipher) (env : CsEnv) (cfg : CsCfg) (req 
     (hw : outsideWindow s cfg.tol env.now = false)
     (huri : req.uri.isEmpty = false) (hup : env.urlParse req.uri = some (p', q'))
     (hsig : h.signature = env.hmacB64 h.key (signContent env h.timestamp req.method p' q' req.body))
-    (hplain : ¬ (req.cl > 0 ∧ h.contentType = 1)) :
+    (hplain : ¬ (req.cl ≠ 0 ∧ h.contentType = 1)) :
     contentSecurity C env cfg req inner = plainNext inner req.body := by
   have hv : verifySignature env cfg.tol req h = 0 := by
     unfold verifySignature pathQuery
@@ -395,7 +395,7 @@ private def exEnv : CsEnv :=
 private def exC : BlockCipher := { bs := 16, keyOk := fun _ => true, enc := fun _ b => b, dec := fun _ b => b }
 
 private def exReq (m p sig uri : String) : CsReq :=
-  { method := m, path := p, query := "", uri := uri, header := some ("good", "S", sig), cl := 0, body := [] }
+  { method := m, path := p, query := "", uri := uri, headers := ["key=good; secret=S; signature=" ++ sig], cl := 0, body := [] }
 
 /-- a correctly signed POST inside the window: runs, and the signature covers the request -/
 example : (contentSecurity exC exEnv ⟨true, 3, 0⟩ (exReq "POST" "/a" "100\nPOST\n/a\n\nd" "") id).ran = true
